@@ -60,6 +60,8 @@ class Sym:
         self.consts = consts        # python name -> Coq constant
         self.recursive = recursive  # name of the method whose call is the recursive sub-step (Taylor scheme)
         self.dt_expr = None
+        self.err_expr = None
+        self.fn = None
 
     # ---- expressions
     def key_of(self, node):
@@ -95,6 +97,33 @@ class Sym:
         if isinstance(n, ast.Call) and ast.unparse(n.func) in ("np.allclose", "xp.allclose") and len(n.args) == 2 and not n.keywords:
             return "(Qeq_bool %s %s)" % (self.expr(n.args[0], env), self.expr(n.args[1], env))
         raise TranslateError("%s: untranslatable test `%s`" % (self.label, ast.unparse(n)))
+
+    # ---- the error measure inside  p = (<tolerance factor> / (<error> + 1e-30)) ** (1/<order>)
+    def error_of(self, pw):
+        base = pw.left
+        if not (isinstance(base, ast.BinOp) and isinstance(base.op, ast.Div) and isinstance(base.right, ast.BinOp)
+                and isinstance(base.right.op, ast.Add) and isinstance(base.right.right, ast.Constant) and base.right.right.value == 1e-30):
+            raise TranslateError("%s: enlargement factor is not (tol / (error + 1e-30)) ** (1/order): %s" % (self.label, ast.unparse(pw)))
+        if "adaptive_rtol" not in ast.unparse(base.left):
+            raise TranslateError("%s: numerator of the enlargement factor does not contain adaptive_rtol" % self.label)
+        return self.err_term(base.right.left)
+
+    def err_term(self, n):
+        """expression over  dis (a distance / norm of an error vector)  and  nrm (norm of the propagated state)"""
+        if isinstance(n, ast.Name) and n.id == "dis":
+            return "dis"
+        if isinstance(n, ast.Name) and n.id == "error":
+            # general RK: `error = error.norm / new_mps.norm` inside sub_time_step_evolve
+            defs = [a for a in ast.walk(self.fn) if isinstance(a, ast.Assign) and len(a.targets) == 1 and isinstance(a.targets[0], ast.Name)
+                    and a.targets[0].id == "error" and isinstance(a.value, ast.BinOp)]
+            if len(defs) != 1:
+                raise TranslateError("%s: expected exactly one arithmetic definition of `error`" % self.label)
+            return self.err_term(defs[0].value)
+        if isinstance(n, ast.Attribute) and n.attr in ("mp_norm", "norm") and isinstance(n.value, ast.Name):
+            return "dis" if n.value.id == "error" else "nrm"
+        if isinstance(n, ast.BinOp) and isinstance(n.op, (ast.Div, ast.Mult)):
+            return "(%s %s %s)" % (self.err_term(n.left), "/" if isinstance(n.op, ast.Div) else "*", self.err_term(n.right))
+        raise TranslateError("%s: untranslatable error measure `%s`" % (self.label, ast.unparse(n)))
 
     # ---- statements
     def stores_tracked(self, node):
@@ -152,6 +181,7 @@ class Sym:
                 env = dict(env)
                 if k == "p" and isinstance(s.value, ast.BinOp) and isinstance(s.value.op, ast.Pow):
                     env["p"] = "p0"
+                    self.err_expr = self.error_of(s.value)
                 elif k == "dt":
                     if self.dt_expr is not None:
                         raise TranslateError("%s: dt assigned twice" % self.label)
@@ -177,6 +207,7 @@ def translate(fn, label, attrs, names, pos_is_remaining=False, recursive=None):
     loop = _the_loop(fn)
     consts = {"p_restart": label + "_p_restart", "p_min": label + "_p_min", "p_max": label + "_p_max"}
     sym = Sym(label, attrs, dict(names), consts, recursive)
+    sym.fn = fn
     env0 = {"guess": "guess", "pos": "pos", "target": "target"}
     if pos_is_remaining:
         env0["target"] = "pos"
@@ -186,7 +217,9 @@ def translate(fn, label, attrs, names, pos_is_remaining=False, recursive=None):
     for leaf in ("Reject", "Sub", "Final"):
         if "(" + leaf + " " not in term:
             raise TranslateError("%s: no %s path found" % (label, leaf))
-    return sym.dt_expr, term
+    if sym.err_expr is None:
+        raise TranslateError("%s: no enlargement factor p = (...) ** (...) found" % label)
+    return sym.dt_expr, term, sym.err_expr
 
 
 def main(repo="/repo"):
@@ -206,11 +239,14 @@ def main(repo="/repo"):
     ]
     info = {}
     for label, fn, attrs, names, rem, rec in specs:
-        dt, term = translate(fn, label, attrs, names, rem, rec)
-        info[label] = {"dt": dt, "step": term}
+        dt, term, err = translate(fn, label, attrs, names, rem, rec)
+        info[label] = {"dt": dt, "step": term, "err": err}
         out.append("(* %s *)" % fn.name)
         out.append("Definition %s_dt_gen (guess pos target : Q) : Q := %s." % (label, dt))
         out.append("Definition %s_step_gen (guess pos target dt p0 : Q) : outcome :=\n  %s." % (label, term))
+        out.append("(* the error measure the enlargement factor p0 is computed from: dis = distance of the two solutions / norm of the error vector,")
+        out.append("   nrm = norm of the propagated state *)")
+        out.append("Definition %s_err_gen (dis nrm : Q) : Q := %s." % (label, err))
         out.append("")
     return "\n".join(out), info
 
